@@ -1017,6 +1017,26 @@ def _canonical_renames(facts, ks):
             if b["path"] in ren.values():
                 b["name"] = b["path"].split("::")[-1]
         facts["renamed_fns"] = ren
+    # ---- structs moved to another module (same name, same fields) ---------------------------------
+    kfields = ks.get("fields", {})
+    cur_adts = {a["path"]: a for a in facts["adts"]}
+    aren = {}
+    for kp_, kf in kfields.items():
+        if kp_ in cur_adts:
+            continue
+        last = kp_.split("::")[-1]
+        cands = [a for pth, a in cur_adts.items() if pth.split("::")[-1] == last and pth not in kfields and a.get("kind") == "struct" and a.get("local") and a.get("variants")
+                 and sorted(f["name"] for f in a["variants"][0]["fields"]) == sorted(n for n, _ in kf)]
+        if len(cands) == 1:
+            aren[cands[0]["path"]] = kp_
+    if aren:
+        txt = json.dumps(facts)
+        for old_, new_ in sorted(aren.items(), key=lambda kv: -len(kv[0])):
+            o = json.dumps(old_)[1:-1]
+            n = json.dumps(new_)[1:-1]
+            txt = re.sub(r'(?<![A-Za-z0-9_:])' + re.escape(o) + r'(?![A-Za-z0-9_])', n.replace("\\", "\\\\"), txt)
+        facts = json.loads(txt)
+        facts["moved_adts"] = aren
     # ---- fields -----------------------------------------------------------------------------
     fren = {}
     for a in facts["adts"]:
@@ -1086,6 +1106,47 @@ def _has_loop(C):
             color[n] = 2
             stack.pop()
     return False
+
+
+def _expand_unwrap_or_else(B, bi, t, by_path):
+    """`dest = r.unwrap_or_else(|e| body)` with a local closure becomes  switch discriminant(r) { Ok => dest = payload, Err => dest = body(e) }
+    (the usual way of handing an error to a handler: `r.unwrap_or_else(|e| self.defer_error(e))`)."""
+    if len(t["args"]) != 2 or t.get("t") is None:
+        return False
+    r_pl = t["args"][0].get("move") or t["args"][0].get("copy")
+    co = _closure_of_operand(B, bi, t["args"][1])
+    if r_pl is None or r_pl["p"] or co is None or co[0] not in by_path:
+        return False
+    C = by_path[co[0]]
+    if C["arg_count"] != 2:
+        return False
+    if not any(bk["term"]["k"] == "return" and not bk.get("cleanup") for bk in C["blocks"]):
+        return False      # a handler that only panics stays a closure (its panic site keeps its identity)
+    rty = B["locals"][r_pl["l"]].get("ty", "")
+    line = t.get("line", 0)
+    lo = len(B["locals"])
+    B["locals"] = B["locals"] + [dict(l) for l in C["locals"]] + [{"ty": "isize"}]
+    dl = len(B["locals"]) - 1
+    bo = len(B["blocks"])
+    _SUB.clear()
+    _POWNER[0] = co[0]
+    body_blocks = _copy_body(B, C, lo, bo + 2, t["dest"], t["t"], line)
+    _POWNER[0] = None
+    err_stmts = []
+    if co[1] is not None:
+        if str(C["locals"][1].get("ty", "")).startswith("&"):
+            err_stmts.append({"k": "assign", "lhs": {"l": lo + 1, "p": []}, "rv": {"k": "ref", "place": {"l": co[1], "p": []}, "mut": str(C["locals"][1]["ty"]).startswith("&mut")}, "line": line, "exp": None})
+        else:
+            err_stmts.append({"k": "assign", "lhs": {"l": lo + 1, "p": []}, "rv": {"k": "use", "op": {"move": {"l": co[1], "p": []}}}, "line": line, "exp": None})
+    err_stmts.append({"k": "assign", "lhs": {"l": lo + 2, "p": []}, "rv": {"k": "use", "op": {"move": {"l": r_pl["l"], "p": [{"dc": 1, "n": "Err"}, {"f": 0, "n": "0", "ty": "", "of": rty}]}}}, "line": line, "exp": None})
+    err_blk = {"cleanup": False, "stmts": err_stmts, "term": {"k": "goto", "t": bo + 2, "line": line, "exp": None}}
+    ok_blk = {"cleanup": False, "stmts": [{"k": "assign", "lhs": t["dest"], "rv": {"k": "use", "op": {"move": {"l": r_pl["l"], "p": [{"dc": 0, "n": "Ok"}, {"f": 0, "n": "0", "ty": "", "of": rty}]}}}, "line": line, "exp": None}],
+              "term": {"k": "goto", "t": t["t"], "line": line, "exp": None}}
+    B["blocks"] = B["blocks"] + [ok_blk, err_blk] + body_blocks
+    blk = B["blocks"][bi]
+    blk["stmts"].append({"k": "assign", "lhs": {"l": dl, "p": []}, "rv": {"k": "discr", "place": {"l": r_pl["l"], "p": []}, "of": rty}, "line": line, "exp": None})
+    blk["term"] = {"k": "switch", "discr": {"move": {"l": dl, "p": []}}, "vals": ["0", "1"], "tgts": [bo, bo + 1], "otherwise": bo + 1, "line": line, "exp": None, "inlined": co[0]}
+    return True
 
 
 def _expand_or_else(B, bi, t, by_path):
@@ -1235,6 +1296,11 @@ def inline_helpers(facts, is_new, max_rounds=4):
                 if cal == "std::result::Result::<T, E>::and_then" and "::tests::" not in B["path"]:
                     if _expand_and_then(B, bi, t, by_path):
                         done.append((B["path"], "and_then"))
+                        changed = True
+                    continue
+                if cal == "std::result::Result::<T, E>::unwrap_or_else" and "::tests::" not in B["path"]:
+                    if _expand_unwrap_or_else(B, bi, t, by_path):
+                        done.append((B["path"], "unwrap_or_else"))
                         changed = True
                     continue
                 if cal == "std::option::Option::<T>::or_else" and "::tests::" not in B["path"]:
